@@ -22,7 +22,7 @@ PROBES = ["exception_mid_cycle_with_live_doers_both_sides", "enter_failure_insid
           "remove_of_dodoer_with_live_children", "kbint_in_class_doer", "limit_stop_with_nested_alive",
           "kbint_in_sleep"]
 BOUNDS = dict(quick=dict(nodes=8, depth=3, steps=5), thorough=dict(nodes=14, depth=4, steps=8))
-TIERS = dict(quick=dict(cases=24000, wall=40.0), thorough=dict(cases=1500000, wall=420.0))
+TIERS = dict(quick=dict(cases=40000, wall=60.0), thorough=dict(cases=1500000, wall=420.0))
 
 
 def feat_for(tier):
